@@ -55,6 +55,22 @@ pub fn dist_sym(dist: usize) -> (usize, u32, u32) {
 
 pub fn fixed_lit_lens() -> Vec<u8> { (0..288).map(|i| if i < 144 { 8 } else if i < 256 { 9 } else if i < 280 { 7 } else { 8 }).collect() }
 
+/// A complete code for `n >= 140` symbols in which all but three have 10..15-bit codes:
+/// depths 1, 2, 3 for three symbols and the remaining eighth of the code space split into
+/// `n - 3` leaves between depth 10 and 15, shuffled.
+pub fn heavy_depths(rng: &mut Rng, n: usize) -> Vec<u8> {
+    let mut leaves: Vec<u8> = vec![10; 128];
+    while leaves.len() < n - 3 {
+        let elig: Vec<usize> = (0..leaves.len()).filter(|&i| leaves[i] < 15).collect();
+        let idx = elig[rng.below(elig.len())];
+        let d = leaves[idx] + 1;
+        leaves[idx] = d; leaves.push(d);
+    }
+    leaves.extend_from_slice(&[1, 2, 3]);
+    for i in (1..leaves.len()).rev() { let j = rng.below(i + 1); leaves.swap(i, j); }
+    leaves
+}
+
 /// Random complete prefix code with `n >= 2` leaves, depths <= maxdepth.
 pub fn random_depths(rng: &mut Rng, n: usize, maxdepth: u8, deep: bool) -> Vec<u8> {
     let mut leaves: Vec<u8> = vec![0];
@@ -93,6 +109,10 @@ pub struct GenCfg {
     /// bytes assumed to precede the output (ring buffer contents); matches may reach into it
     pub pre_len: usize,
     pub big: bool,
+    /// dynamic blocks assign a code to every literal/length symbol, almost all of them longer than
+    /// 10 bits (the decoder's overflow tree is then used far beyond its first `table_size` entries),
+    /// in a different arrangement per block
+    pub heavy: bool,
 }
 
 fn gen_tokens(rng: &mut Rng, cfg: &GenCfg, plain: &mut Vec<u8>, feats: &mut Vec<String>, n: usize) -> Vec<Tok> {
@@ -286,7 +306,16 @@ pub fn gen_stream(rng: &mut Rng, cfg: &GenCfg) -> GenStream {
                 }
                 let pool_l: Vec<usize> = (0..286).filter(|s| !used_l.contains(s)).collect();
                 let pool_d: Vec<usize> = (0..30).filter(|s| !used_d.contains(s)).collect();
-                let ll = assign_lens(rng, 288, &used_l, &pool_l, 15, true, &mut feats, "lit");
+                let ll = if cfg.heavy {
+                    let nl = rng.range(260, 286);
+                    let d = heavy_depths(rng, nl);
+                    // every used symbol must have a code: give the codes to the used symbols first
+                    let mut order: Vec<usize> = used_l.clone();
+                    for s in 0..286 { if !order.contains(&s) { order.push(s); } }
+                    let mut v = vec![0u8; 288];
+                    for (k, s) in order.iter().take(nl).enumerate() { v[*s] = d[k]; }
+                    if used_l.len() > nl { assign_lens(rng, 288, &used_l, &pool_l, 15, true, &mut feats, "lit") } else { feats.push("lit_heavy".into()); v }
+                } else { assign_lens(rng, 288, &used_l, &pool_l, 15, true, &mut feats, "lit") };
                 let dl = assign_lens(rng, 32, &used_d, &pool_d, 15, true, &mut feats, "dist");
                 write_dynamic_header(rng, &mut w, &ll, &dl, &mut feats);
                 let lc = canonical_codes(&ll); let dc = canonical_codes(&dl);
@@ -303,6 +332,43 @@ pub fn gen_stream(rng: &mut Rng, cfg: &GenCfg) -> GenStream {
     }
     feats.sort(); feats.dedup();
     GenStream { bytes, plain, bits, features: feats, zlib: cfg.zlib }
+}
+
+/// A dynamic block over a tiny alphabet (1- and 2-bit codes, so the decoder's bit buffer is still full
+/// of whole bytes when the block ends) directly followed by a non-empty stored block, optionally more.
+/// Returns the stream, the plaintext and the plaintext offsets at which the stored blocks start.
+pub fn huff_then_stored(rng: &mut Rng, zlib: bool) -> (Vec<u8>, Vec<u8>, Vec<usize>) {
+    let mut w = BitWriter::new();
+    let mut plain: Vec<u8> = vec![];
+    let mut bounds = vec![];
+    if zlib { w.put(0x78, 8); w.put(0x9c, 8); }
+    let rounds = rng.range(1, 3);
+    for r in 0..rounds {
+        let (a, b) = (rng.byte(), rng.byte().wrapping_add(1));
+        let (a, b) = if a == b { (a, a.wrapping_add(7)) } else { (a, b) };
+        let k = rng.range(1, 90);
+        let toks: Vec<Tok> = (0..k).map(|_| Tok::Lit(if rng.chance(2, 3) { a } else { b })).collect();
+        for t in &toks { if let Tok::Lit(x) = t { plain.push(*x); } }
+        let mut ll = vec![0u8; 288];
+        let d = if rng.chance(1, 2) { [1u8, 2, 2] } else { [2u8, 1, 2] };
+        ll[a as usize] = d[0]; ll[b as usize] = d[1]; ll[256] = d[2];
+        let dl = vec![0u8; 32];
+        w.put(0, 1); w.put(2, 2);
+        let mut feats = vec![];
+        write_dynamic_header(rng, &mut w, &ll, &dl, &mut feats);
+        let lc = canonical_codes(&ll); let dc = canonical_codes(&dl);
+        write_tokens(&mut w, &toks, &ll, &lc, &dl, &dc);
+        // the stored block
+        let last = r + 1 == rounds;
+        let n = rng.range(1, 40);
+        bounds.push(plain.len());
+        w.put(last as u32, 1); w.put(0, 2); w.align();
+        w.put(n as u32, 16); w.put(!(n as u32) & 0xFFFF, 16);
+        for _ in 0..n { let x = rng.byte(); plain.push(x); w.put(x as u32, 8); }
+    }
+    let mut bytes = w.finish();
+    if zlib { bytes.extend_from_slice(&adler32(&plain).to_be_bytes()); }
+    (bytes, plain, bounds)
 }
 
 /// G-mut: structural mutations of a (usually valid) stream.
